@@ -547,10 +547,8 @@ func (vc *VC) evalArgs(st *State, sig *types.Signature, args []ast.Expr, c *ast.
 			}
 		}
 		v := vc.eval(st, a)
-		if pt != nil {
-			if _, isTP := pt.(*types.TypeParam); !isTP {
-				v = vc.convert(st, v, pt)
-			}
+		if pt != nil && !containsTypeParam(pt) {
+			v = vc.convert(st, v, pt)
 		}
 		out = append(out, v)
 	}
@@ -880,6 +878,10 @@ func containsTypeParam(t types.Type) bool {
 		return true
 	case *types.Slice:
 		return containsTypeParam(u.Elem())
+	case *types.Array:
+		return containsTypeParam(u.Elem())
+	case *types.Map:
+		return containsTypeParam(u.Key()) || containsTypeParam(u.Elem())
 	case *types.Pointer:
 		return containsTypeParam(u.Elem())
 	case *types.Named:
